@@ -536,7 +536,23 @@ def _mass_sum(run, ev_i, lz):
     # the pieces must tile the protein (non-specific digestion does not: every sub-span is returned)
     tiles = sorted(spans) and sorted(spans)[0][0] == 0 and all(x[1] == y[0] for x, y in zip(sorted(spans), sorted(spans)[1:])) \
         and sorted(spans)[-1][1] == n
-    if not tiles or any(ms is None for ms in lz['masses']) or len(lz['masses']) != len(spans):
+    if not tiles:
+        # Only the non-specific rule returns every sub-span. Under a specific rule (all rules the generator uses are
+        # specific; the harness's own copy of them is in RULES) the zero-missed-cleavage peptides of a complete
+        # digest do not overlap - overlapping pieces cannot add up to the protein plus one water per cut.
+        rules_ = a['enzyme'] if isinstance(a['enzyme'], list) else [a['enzyme']]
+        if n >= 1 and all(r_ in RULES for r_ in rules_) and len(spans) == len(lz['masses']):
+            out.oracle_checks += 1
+            sites_ = set()
+            for r_ in rules_:
+                sites_.update(own_sites(m.seq, r_))
+            every = set(range(n + 1)) <= sites_
+            return run.violation('MASSSUM', a['fn'], 'overlap-every-position-a-site' if every else 'overlap',
+                                 f"MASSSUM: the zero-missed-cleavage peptides of {N.denorm(pr['nf']).serialize()!r} under "
+                                 f"{rules_} have spans {sorted(spans)[:8]} that do not tile the protein, so their masses "
+                                 f"cannot add up to the protein plus one water per cut", ev_i)
+        return False
+    if any(ms is None for ms in lz['masses']) or len(lz['masses']) != len(spans):
         return False
     try:
         total = pt.mass(N.denorm(pr['nf']))
